@@ -121,7 +121,7 @@ DnsPrettify(m, transport) ==
   /\ Emit(<<[k |-> "render", mode |-> "explicit", req |-> "dns", msg |-> transport, content |-> "present",
              inctl |-> (m.q = "ctl"), raised |-> "", view |-> "dns", via |-> "view", cls |-> <<"sp", "print">>]>>)
 RType(rr) == CASE rr \in {"txt", "txt_bad"} -> 16 [] rr \in {"cname", "cname_bad"} -> 5 [] rr = "a" -> 1
-               [] rr = "https" -> 65 [] rr = "opt" -> 41 [] OTHER -> 99
+               [] rr \in {"https", "https_hi"} -> 65   \* https_hi: SvcPriority >= 0x8000 (read and written signed) [] rr = "opt" -> 41 [] OTHER -> 99
 DnsReencode ==
   /\ Live /\ pc = "dnsrendered"
   /\ pc' = "idle" /\ call' = NoCall /\ UNCHANGED calls
@@ -129,7 +129,7 @@ DnsReencode ==
          hdr(z) == <<7, 1, 0, 0, 0, 1, 0, z, 0>>
          q(n) == IF m.q = "none" THEN <<>> ELSE << <<n, 1, 1>> >>
          rr(d) == IF m.rr = "none" THEN <<>> ELSE << <<1, 2, RType(m.rr), 1, 1, d>> >>
-     IN Emit(<<[k |-> "dns_rt", transport |-> call.transport, valid |-> TRUE, rendered |-> TRUE, reenc |-> "ok",
+     IN Emit(<<[k |-> "dns_rt", transport |-> call.transport, valid |-> TRUE, rendered |-> TRUE, dotted |-> (m.q = "dot"), reenc |-> "ok",
                 exc |-> "",
                 hdr_o |-> hdr(m.z), hdr_r |-> hdr(0),                                  \* from_json: reserved = 0
                 q_o |-> q(1), q_r |-> q(IF m.q = "dot" THEN 3 ELSE 1),                 \* "a.b" + "." + "c" re-split
